@@ -12,7 +12,7 @@
               malformed or any JSON tree).
     No bound on any of them. *)
 From Coq Require Import List NArith ZArith Bool String.
-From ApiFu Require Import Base.Sexp JsonApi.JsonApiModel JsonApi.JsonApiSpec JsonApi.JsonApiProofs.
+From ApiFu Require Import Base.Sexp JsonApi.JsonApiModel JsonApi.JsonApiSpec JsonApi.JsonApiProofs JsonApi.JsonApiExtras.
 Import ListNotations.
 Open Scope Z_scope.
 
@@ -51,6 +51,16 @@ Section C19.
     serve_http fixed pmt choose sch rq = Resp st ct (WDoc v data [] top) c ->
     identity_and_links sch rq data top = None.
   Proof. exact (ja_resource_identity pmt choose choose_one_of_them sch rq). Qed.
+
+  (** the same for GET / PATCH of /{type}/{id}, in plain terms *)
+  Theorem C19_ja_fetch_identity : forall st ct v data top c t id,
+    serve_http fixed pmt choose sch rq = Resp st ct (WDoc v data [] top) c ->
+    endpoint_of sch (rq_path rq) = EResource t id -> rq_method rq <> s_DELETE ->
+    exists i, data = WOne i /\ w_type i = rt_name t /\ w_id i = id /\
+              links_equal top [(s_self, rq_path rq)] = true /\
+              (forall name rel, In (name, rel) (w_rels i) ->
+                                links_equal (rel_links rel) (standard_links (rt_name t) id name) = true).
+  Proof. exact (fetch_identity pmt choose choose_one_of_them sch rq). Qed.
 
   (** everything at once: the Spec oracle that the check runs on the implementation's answers
       accepts every answer of the model *)
@@ -115,6 +125,11 @@ Proof. exact acceptable_eq. Qed.
 Theorem C19_query_parameter_grammar : forall k, query_key_ok k = supported_parameter k.
 Proof. exact query_key_ok_eq. Qed.
 
+(** ... and the Spec's parser of parameter names accepts exactly family *( "[" member "]" ) *)
+Theorem C19_query_parameter_grammar_declarative : forall k,
+  supported_parameter k = true <-> well_formed_parameter k.
+Proof. exact supported_parameter_grammar. Qed.
+
 (** types.go:194-226 on the linkage documents of the JSON:API text *)
 Theorem C19_linkage_null : dec_relationship_data (JObj [(s_data, JNull)]) = Some LNull.
 Proof. exact linkage_null. Qed.
@@ -145,6 +160,7 @@ Print Assumptions C19_ja_well_formed.
 Print Assumptions C19_ja_status.
 Print Assumptions C19_ja_ref_status.
 Print Assumptions C19_ja_resource_identity.
+Print Assumptions C19_ja_fetch_identity.
 Print Assumptions C19_model_satisfies_spec.
 Print Assumptions C19_ja_406.
 Print Assumptions C19_ja_400_params.
@@ -155,6 +171,7 @@ Print Assumptions C19_ja_linkage_relationship.
 Print Assumptions C19_ja_linkage_resource.
 Print Assumptions C19_accept_negotiation.
 Print Assumptions C19_query_parameter_grammar.
+Print Assumptions C19_query_parameter_grammar_declarative.
 Print Assumptions C19_linkage_null.
 Print Assumptions C19_linkage_to_one.
 Print Assumptions C19_linkage_to_many.
